@@ -1,7 +1,7 @@
 """C11 -- no operation hangs."""
 import oracles, scen
 from units.mk import Unit, COMMON
-Unit([("stall", scen.gen_stall, 4), ("slow", scen.gen_slow, 1)], (oracles.o_c11, oracles.o_c11_stalled_outcome) + COMMON,
+Unit([("stall", scen.gen_stall, 4), ("slow", scen.gen_slow, 1), ("tricklebig", scen.gen_trickle_big, 1)], (oracles.o_c11, oracles.o_c11_total, oracles.o_c11_packet, oracles.o_c11_stalled_outcome) + COMMON,
      "virtual clock; for a session touching every operation the device stalls after k packets by {silence, end-of-stream, 1-2 byte trickle with slow calls, "
      "foreign-stream flood, unexpected-command flood}; timeouts from a grid over (transport, read, total) in {None,0,-1,1/1024,0.5,3,10}; outcome kind and "
      "elapsed virtual time are compared with the model and with the bound; a would-block-forever call is the Hang verdict. Non-trivial/distinct as for C01.",
